@@ -175,4 +175,98 @@ PLANS["C16"] = dict(
     assumptions=["in-process execution; stack overflows and aborts are observed as worker death with the current case recorded"],
     floor=dict(quick=40, thorough=60),
 )
+import groute  # noqa: E402
+import json  # noqa: E402
+import hashlib  # noqa: E402
+
+
+def gen_jobs(worker, prop, n_quick, n_thorough, wsname, nshards=NSH, extra=None):
+    def jobs(ctx):
+        th = ctx["tier"] == "thorough"
+        ws = groute.prepare_ws(ctx, wsname)
+        out = []
+        for i in range(nshards):
+            args = ["--seed", ctx["seed"], "--shard", i, "--nshards", nshards, "--tier", ctx["tier"], "--n", (n_thorough if th else n_quick), "--crate-dir", os.path.join(ws, "s%d" % i)]
+            if extra:
+                args += extra
+            out.append(dict(worker=worker, prop=prop, args=args))
+        return out
+    return jobs
+
+
+def gen_replay(worker, prop, wsname):
+    def jobs(ctx, case, path):
+        ws = groute.prepare_ws(ctx, wsname)
+        return [dict(worker=worker, prop=prop, args=["--replay", path, "--seed", ctx["seed"], "--crate-dir", os.path.join(ws, "s0")])]
+    return jobs
+
+
+def c08_post(ctx, results, wsname="c08"):
+    recs = []
+    members = groute.members_with_modules(ctx, wsname, NSH)
+    if not members:
+        return [dict(k="harness_error", what="no module generated", case=None)]
+    rc, out, err = groute.build_ws(ctx, wsname, [m for m, _ in members])
+    if rc != 0:
+        # whether generated code compiles is C11's business; here it blocks the comparison
+        recs.append(dict(k="harness_error", what="scratch workspace does not build: " + err[-1500:], case=None))
+        return recs
+    counters = dict(evaluations=0, modules_compared=0, lines_compared=0)
+    distinct = {"nontrivial": set()}
+    samples = []
+    for member, meta in members:
+        mods = groute.run_member(ctx, wsname, member)
+        if mods is None:
+            recs.append(dict(k="harness_error", what="generated binary %s timed out" % member, case=None))
+            continue
+        for m in meta["modules"]:
+            got = mods.get(m["name"])
+            info = m["info"]
+            sig_base = hashlib.sha1((info["grammar"] + json.dumps(info["settings"], sort_keys=True)).encode()).hexdigest()[:16]
+            case = {"info": info}
+            counters["modules_compared"] += 1
+            if got is None or not got["ended"]:
+                recs.append(dict(k="viol", prop="C08", sig="crash:" + sig_base, what="generated parser crashed while being interrogated (module %s)" % m["name"], case=case))
+                continue
+            exp, lines = m["expected"], got["lines"]
+            counters["lines_compared"] += len(exp)
+            counters["evaluations"] += len(exp)
+            bad = None
+            for i, e in enumerate(exp):
+                if i >= len(lines) or lines[i] != e:
+                    bad = (i, e, lines[i] if i < len(lines) else "<missing>")
+                    break
+            if bad is None and len(lines) != len(exp):
+                bad = (len(exp), "<end>", lines[len(exp)])
+            if bad:
+                kind = bad[1].split(" ")[0]
+                what = {"A": "action query", "G": "goto query", "E": "expected-token query", "P": "parse result (generated source vs table driven through the same runtime)", "L": "default layout state", "LM": "lexical strategy flags",
+                        "SV": "State enum values", "TV": "TokenKind enum values", "NV": "NonTermKind enum values", "PV": "ProdKind enum values", "PN": "ProdKind -> NonTermKind"}.get(kind, kind)
+                if kind == "P":
+                    idx = int(bad[1].split(" ")[1])
+                    case["input"] = info["inputs"][idx] if idx < len(info["inputs"]) else None
+                recs.append(dict(k="viol", prop="C08", sig="%s:%s" % (kind, sig_base),
+                                 what="generated source answers a %s differently from the computed table: expected `%s`, got `%s`" % (what, bad[1][:200], bad[2][:200]), case=case))
+            else:
+                if info.get("multi_action_cell") or info.get("state_without_goto"):
+                    distinct["nontrivial"].add(sig_base)
+                distinct.setdefault("modules", set()).add(sig_base)
+                if len(samples) < 3:
+                    samples.append({"grammar": info["grammar"], "settings": {k: info["settings"][k] for k in ("glr", "gen_table")}, "states": info["states"], "lines_compared": len(exp), "inputs_parsed": len(info["inputs"])})
+    groute.cleanup_ws(ctx, wsname)
+    recs.append(dict(k="stat", counters=counters, distinct={k: list(v) for k, v in distinct.items()}, samples=samples))
+    return recs
+
+
+PLANS["C08"] = dict(
+    jobs=gen_jobs("c08", "C08", 3, 30, "c08"), replay=gen_replay("c08", "C08", "c08"), post=c08_post, post_replay=lambda ctx, results, case: c08_post(ctx, results),
+    evaluations_key="evaluations",
+    rule="one evaluation = one compared answer of a generated parser module (compiled by rustc from the source the real compiler wrote): every (state, token) action query, every (state, non-terminal) goto query "
+         "(undefined cells must panic), every expected-token query, default layout state, strategy flags, the integer value of every enum variant, ProdKind -> NonTermKind, and the rendering of every parse result "
+         "(tree with all spans, or error offset) - expected values come from the table dump and from the same inputs driven through the dynamic route; each grammar is generated as Functions and Arrays layout, LR and GLR. "
+         "non-trivial = distinct (grammar, layout, algorithm) module having a multi-action cell or a state without gotos",
+    assumptions=["grammars: random BNF, context family, literature corpus, lexically overlapping terminal sets, Layout families", "LR modules use prefer_shifts so that more grammars are deterministic",
+                 "GLR trees are compared for inputs with <= 12 solutions"],
+    floor=dict(quick=20, thorough=200), wall_cap=dict(quick=900, thorough=7200),
+)
 NOT_CLAIMED = {}
